@@ -270,6 +270,35 @@ func modeC10(rulesFile string) {
 		}(li, rl)
 	}
 	wg.Wait()
+	c10Regexp()
+}
+
+// a rule whose set is a long list of regular expressions: the very first queries the router gets arrive together and
+// each of them matches one expression - the first rule decides for them as for any later query
+func c10Regexp() {
+	for round := 0; round < 3; round++ {
+		var lines []string
+		for i := 0; i < 600; i++ {
+			lines = append(lines, fmt.Sprintf("regexp:^h%d\\.r0t60d0\\.rx%d\\.test$", i, round))
+		}
+		in, err := newInst(fmt.Sprintf("c10-rx%d", round), instOpts{
+			listeners: []string{"udp", "tcp"},
+			upstreams: map[string]string{"u1": "udp", "u2": "tcp"},
+			sets:      map[string][]string{"rx": lines},
+			rules:     []ruleSpec{{Set: "rx", Forward: "u1"}, {Forward: "u2"}},
+		})
+		if err != nil {
+			panic(err)
+		}
+		par(64, func(i int) {
+			in.send([]string{"udp", "tcp"}[i%2], "", mkq(fmt.Sprintf("h%d.r0t60d0.rx%d.test.", i*9, round)), 4*time.Second, nil)
+		})
+		par(32, func(i int) {
+			in.send("udp", "", mkq(fmt.Sprintf("h%d.r0t60d0.rx%d.test.", i*9+1, round)), 4*time.Second, nil)
+			in.send("udp", "", mkq(fmt.Sprintf("h%d.r0t60d0.rx%d.test.", 700+i, round)), 4*time.Second, nil) // no entry: second rule
+		})
+		in.close()
+	}
 }
 
 // background refreshes must go to the rule's upstream with the entry's own question: entries of zone z1 (u1)
